@@ -33,20 +33,26 @@ import GoImap.Lemmas.FramingLine
                                  synchronising literal never answered, F51 APPEND never answered)
     * tags_agree_partial / no_payload_as_command_partial
                                  the end-to-end simulation against `frameLines` (the per-command function of
-                                 `frame`) for ONE class of commands, at full strength inside it: a command the
-                                 server does not know (any name outside its table, any line tail: junk, literal
-                                 headers of either kind, quoted text), on a line of printable US-ASCII, with no
-                                 continuation request pending at the end of the line. The server writes exactly
-                                 one tagged reply and its tag is `frame`'s tag; every octet it consumes as command
-                                 text has role `text` in `frame` (server roles ⊑ spec roles); unless the line
-                                 ends in a non-synchronising literal header both end the command at the same
-                                 octet (same unread input, same offset); no "+" is written.
+                                 `frame`), at full strength inside the classes `Covered`:
+                                   (0) a command name outside the server's table,
+                                   (i) the argument-less commands of the table: NOOP CHECK CAPABILITY LOGOUT
+                                       STARTTLS(refused) UNAUTHENTICATE NAMESPACE CLOSE UNSELECT EXPUNGE,
+                                 with ANY line tail (junk, literal headers of either kind, quoted text), on a
+                                 strict line (printable US-ASCII, not ending in SP), with no continuation
+                                 request pending at the end of the line. The server writes exactly one tagged
+                                 reply and its tag is `frame`'s tag; every octet it consumes as command text
+                                 has role `text` in `frame` (server roles ⊑ spec roles); unless the line ends in
+                                 a non-synchronising literal header both end the command at the same octet
+                                 (same unread input, same offset); no "+" is written.
+                                 Not covered: commands that take arguments (classes (ii) atoms / quoted strings,
+                                 (iii) literals), AUTHENTICATE, IDLE, and the induction over a stream.
   The full statements, NOT proved:
       tags_agree            : for every cfg and every inp in the strict domain,
                               tags (serve cfg inp) is a prefix of tags (frame go inp), equal when the server
                               did not close, with go p := cont p ∈ serve cfg inp
       no_payload_as_command : rolesOf cfg inp is a prefix of (frame go inp).flatMap (·.roles)
-  What is missing for them, precisely: (1) the analogue of `unknown_command_line` for the handlers that
+  What is missing for them, precisely: (1) the `Shape` lemma (Lemmas/FramingLine.lean: the handler stays
+  on the line; `command_line_generic` / `line_command_frame` then give the rest) for the handlers that
   read arguments — the primitives of Lemmas/FramingLine.lean (`OnLine`: look, accept, func, expectAtom, SP,
   the command header) already stay on the line, `crlfP_at_eol` / `crlfP_mid` / `discardLine_line` settle the
   line end, `literal_header_agrees` the literal; what is not done is carrying the invariant through every
@@ -149,29 +155,56 @@ theorem open_literal_blocks_text (s : S) (h : s.lit.isSome = true) :
     s.look.1 = none ∧ s.look.2.inp = s.inp ∧ s.look.2.pos = s.pos :=
   Framing.open_literal_blocks_text s h
 
-/-- tags_agree for a command the server does not know (see the header for the full statement):
-    on the line `l` CRLF of printable US-ASCII, with no "+" seen at its end, the server writes exactly
-    one tagged reply (no continuation request), and its tag is the tag `frameLines` assigns. -/
-theorem tags_agree_partial (cfg : Cfg) (hfix : cfg.fx.append = true) (s0 : S) (l rest : List Nat)
-    (hi : s0.inp = l ++ 13 :: 10 :: rest) (hp : ∀ b ∈ l, 32 ≤ b ∧ b ≤ 126)
-    (tag name : List Nat) (s2 : S) (hh : cmdHeader s0.reset = (some (tag, name), s2))
-    (hu : handlerOf cfg name = .unknown)
-    (go : Nat → Bool) (hgo : go (s0.pos + l.length + 2) = false) (fuel : Nat) (f0 : FramingSpec.Frame) :
-    ∃ s1 new, readCommand cfg s0 = (true, s1) ∧ s1.evs = new ++ s0.evs ∧
-      new.filter isTagged = [Event.tagged tag .bad] ∧ (∀ p, Event.cont p ∉ new) ∧
-      (FramingSpec.frameLines go (fuel + 1) true s0.pos s0.inp f0).1.tag = some tag := by
-  obtain ⟨s1, new, h1, h2, h3, h4, h5, _⟩ :=
-    unknown_command_frame cfg hfix s0 l rest hi hp tag name s2 hh hu go hgo fuel f0
-  exact ⟨s1, new, h1, h2, h3, h4, h5⟩
+/-- the classes of commands for which the end-to-end simulation is proved: (0) a command name
+    outside the server's table, (i) the argument-less commands of the table -/
+def Covered (cfg : Cfg) (name : List Nat) : Prop :=
+  handlerOf cfg name = .unknown ∨
+  name ∈ [k_NOOP, k_CHECK, k_CAPABILITY, k_LOGOUT, k_STARTTLS, k_UNAUTHENTICATE, k_NAMESPACE, k_CLOSE,
+    k_UNSELECT, k_EXPUNGE]
 
-/-- no_payload_as_command for a command the server does not know: what the server consumed — the
-    whole line and its CRLF, as command text — is command text for `frameLines` as well (server
-    roles ⊑ spec roles); and unless the line ends in a non-synchronising literal header (then the
-    server says BYE, `unread_nonsync_closes`) both stop at the same octet. -/
-theorem no_payload_as_command_partial (cfg : Cfg) (hfix : cfg.fx.append = true) (s0 : S) (l rest : List Nat)
-    (hi : s0.inp = l ++ 13 :: 10 :: rest) (hp : ∀ b ∈ l, 32 ≤ b ∧ b ≤ 126)
+theorem covered_frame (cfg : Cfg) (hfix : cfg.fx.append = true) (s0 : S) (l rest : List Nat)
+    (hi : s0.inp = l ++ 13 :: 10 :: rest) (hp : ∀ b ∈ l, 32 ≤ b ∧ b ≤ 126) (hsp : l.getLast? ≠ some 32)
     (tag name : List Nat) (s2 : S) (hh : cmdHeader s0.reset = (some (tag, name), s2))
-    (hu : handlerOf cfg name = .unknown)
+    (hc : Covered cfg name)
+    (go : Nat → Bool) (hgo : go (s0.pos + l.length + 2) = false) (fuel : Nat) (f0 : FramingSpec.Frame) :
+    let R := FramingSpec.frameLines go (fuel + 1) true s0.pos s0.inp f0
+    ∃ s1 new cls, readCommand cfg s0 = (true, s1) ∧
+      s1.evs = new ++ s0.evs ∧ new.filter isTagged = [Event.tagged tag cls] ∧ (∀ p, Event.cont p ∉ new) ∧
+      R.1.tag = some tag ∧
+      s1.roles = List.replicate (l.length + 2) Role.text ++ s0.roles ∧
+      (f0.roles ++ List.replicate (l.length + 2) FramingSpec.Role.text <+: R.1.roles) ∧
+      ((FramingSpec.litHeader l = none ∨ ∃ n, FramingSpec.litHeader l = some (n, false)) →
+        s1.inp = R.2 ∧ R.1.roles = f0.roles ++ List.replicate (l.length + 2) FramingSpec.Role.text ∧
+          s1.pos = s0.pos + (l.length + 2)) := by
+  rcases hc with hu | hn
+  · obtain ⟨s1, new, h⟩ := unknown_command_frame cfg hfix s0 l rest hi hp tag name s2 hh hu go hgo fuel f0
+    exact ⟨s1, new, .bad, h⟩
+  · exact noarg_command_frame cfg hfix s0 l rest hi hp hsp tag name s2 hh (noArg_names cfg name hn) go hgo fuel f0
+
+/-- tags_agree for the covered classes (see the header for the full statement): on the strict line
+    `l` CRLF (printable US-ASCII, not ending in SP), with no "+" seen at its end, the server writes
+    exactly one tagged reply and no continuation request, and the reply's tag is the tag `frameLines`
+    assigns to the command. -/
+theorem tags_agree_partial (cfg : Cfg) (hfix : cfg.fx.append = true) (s0 : S) (l rest : List Nat)
+    (hi : s0.inp = l ++ 13 :: 10 :: rest) (hp : ∀ b ∈ l, 32 ≤ b ∧ b ≤ 126) (hsp : l.getLast? ≠ some 32)
+    (tag name : List Nat) (s2 : S) (hh : cmdHeader s0.reset = (some (tag, name), s2))
+    (hc : Covered cfg name)
+    (go : Nat → Bool) (hgo : go (s0.pos + l.length + 2) = false) (fuel : Nat) (f0 : FramingSpec.Frame) :
+    ∃ s1 new cls, readCommand cfg s0 = (true, s1) ∧ s1.evs = new ++ s0.evs ∧
+      new.filter isTagged = [Event.tagged tag cls] ∧ (∀ p, Event.cont p ∉ new) ∧
+      (FramingSpec.frameLines go (fuel + 1) true s0.pos s0.inp f0).1.tag = some tag := by
+  obtain ⟨s1, new, cls, h1, h2, h3, h4, h5, _⟩ :=
+    covered_frame cfg hfix s0 l rest hi hp hsp tag name s2 hh hc go hgo fuel f0
+  exact ⟨s1, new, cls, h1, h2, h3, h4, h5⟩
+
+/-- no_payload_as_command for the covered classes: what the server consumed — the whole line and
+    its CRLF, as command text — is command text for `frameLines` as well (server roles ⊑ spec roles);
+    and unless the line ends in a non-synchronising literal header (then the server says BYE,
+    `unread_nonsync_closes`) both stop at the same octet. -/
+theorem no_payload_as_command_partial (cfg : Cfg) (hfix : cfg.fx.append = true) (s0 : S) (l rest : List Nat)
+    (hi : s0.inp = l ++ 13 :: 10 :: rest) (hp : ∀ b ∈ l, 32 ≤ b ∧ b ≤ 126) (hsp : l.getLast? ≠ some 32)
+    (tag name : List Nat) (s2 : S) (hh : cmdHeader s0.reset = (some (tag, name), s2))
+    (hc : Covered cfg name)
     (go : Nat → Bool) (hgo : go (s0.pos + l.length + 2) = false) (fuel : Nat) (f0 : FramingSpec.Frame) :
     let R := FramingSpec.frameLines go (fuel + 1) true s0.pos s0.inp f0
     ∃ s1, readCommand cfg s0 = (true, s1) ∧
@@ -181,8 +214,8 @@ theorem no_payload_as_command_partial (cfg : Cfg) (hfix : cfg.fx.append = true) 
         s1.inp = R.2 ∧ R.1.roles = f0.roles ++ List.replicate (l.length + 2) FramingSpec.Role.text ∧
           s1.pos = s0.pos + (l.length + 2)) := by
   intro R
-  obtain ⟨s1, new, h1, _, _, _, _, h6, h7, h8⟩ :=
-    unknown_command_frame cfg hfix s0 l rest hi hp tag name s2 hh hu go hgo fuel f0
+  obtain ⟨s1, new, cls, h1, _, _, _, _, h6, h7, h8⟩ :=
+    covered_frame cfg hfix s0 l rest hi hp hsp tag name s2 hh hc go hgo fuel f0
   exact ⟨s1, h1, h6, h7, h8⟩
 
 /-! ### the behaviour before the repairs (Legacy), on the replay inputs -/
